@@ -552,6 +552,10 @@ class Emitter:
                     inserts.append((lp[n - 1], '\n' + '\n'.join(txt) + '\n'))
                 rules.append('E4-loop')
             for rx, txt in hints:
+                if rx == '@end':
+                    inserts.append((len(b) - 1, '\n'.join(txt) + '\n'))
+                    rules.append('E4-hint')
+                    continue
                 if rx == '@start':
                     inserts.append((1, '\n' + '\n'.join(txt) + '\n'))
                     rules.append('E4-hint')
